@@ -392,8 +392,9 @@ theorem deliver_ext (h : RecOK cfg rec) (ty v root obs d : Nat) (acc : St R × L
   obtain ⟨s, claimed⟩ := acc
   have hq : QP d obs (Ev.filt d r.rid v (r.accepts v)) := by simp [QP, ChildOK, Ev.depth]
   unfold deliver
-  cases ho : r.once <;> cases hf : r.filt <;>
-    simp only [Bool.false_eq_true, ↓reduceIte, Bool.false_and, Bool.true_and] <;> repeat' split
+  by_cases h0 : root = 0 <;> cases hfc : r.filtCancels <;> cases ho : r.once <;> cases hf : r.filt <;>
+    simp only [cancelRoot, h0, Bool.false_eq_true, ↓reduceIte, Bool.false_and, Bool.true_and, Bool.and_true,
+      Bool.and_false, Option.isSome_none, Option.isSome_some] <;> repeat' split
   all_goals first
     | exact Ext.of_eq rfl rfl
     | (refine Ext.trans ?_ (callHandler_ext h _ _ _ _ _ _ _ _); exact Ext.of_eq rfl rfl)
